@@ -651,8 +651,109 @@ def wq_cases(rng, n, engines=("stream", "measure")):
     return out
 
 
+def wb_failure(line, out):
+    """write batch: every element is handed to the table of a segment whose range contains its
+    timestamp (and of its own shard); that segment is the grid cell of the timestamp"""
+    f = line.split()
+    unit, num = f[2], int(f[3])
+    items = f[4:]
+    got = out.split()
+    if out in ("ERR", "bad-op") or len(got) != len(items):
+        return "write batch failed: " + out[:200]
+    z = zone("UTC")
+    for it, g in zip(items, got):
+        try:
+            key, rng_s = g.split(":")
+            a, b, sh = (int(x) for x in rng_s.split(","))
+        except ValueError:
+            return "unparsable write-batch output: " + g[:100]
+        ts, shard = (int(x) for x in it.split("@"))
+        if key != it:
+            return "write batch output out of step: %s vs %s" % (key, it)
+        if not (a <= ts < b):
+            return ("element ts=%d (shard %d) of the batch was filed under the table of segment [%d,%d), which does not "
+                    "contain its timestamp" % (ts, shard, a, b))
+        if sh != shard:
+            return "element ts=%d for shard %d was filed under the table of shard %d" % (ts, shard, sh)
+        if (a, b) != ref_cell(z, unit, num, ts):
+            return "element ts=%d filed under [%d,%d), the grid cell is %s" % (ts, a, b, ref_cell(z, unit, num, ts))
+    return None
+
+
+def wb_cases(rng, n, engines=("stream", "trace")):
+    """one write batch of 2-6 elements over 2-3 adjacent segment windows in every small arrival order
+    (newer then older, interleaved, boundary instants), one or two shards"""
+    import itertools
+    out = []
+    orders = [o for k in (2, 3, 4) for o in itertools.product((0, 1, 2), repeat=k) if len(set(o)) > 1]
+    for i in range(n):
+        eng = engines[i % len(engines)]
+        order = orders[(i // len(engines)) % len(orders)] if rng.random() < 0.8 else tuple(rng.randrange(3) for _ in range(rng.randint(4, 6)))
+        unit, num = rng.choice([("D", 1), ("D", 1), ("H", 1), ("H", 2), ("D", 2)])
+        u = unit_ns(unit) * num
+        base = ref_cell(zone("UTC"), unit, num, rng.randrange(ns_of(2024, 1, 5), ns_of(2026, 12, 1)))[0]
+        items = []
+        for w in order:
+            w0 = base + w * u
+            ts = rng.choice([w0, w0 + 1000000, w0 + u - 1000000, w0 + rng.randrange(0, u) // 1000000 * 1000000])
+            items.append("%d@%d" % (ts, 0 if rng.random() < 0.8 else 1))
+        out.append("wb.%s %s %s %d %s" % (eng, eng, unit, num, " ".join(items)))
+    return out
+
+
+def odb_spec(f):
+    """expected options for an `odb` line, from the documented lifecycle semantics (independent of
+    pub.ResolveStage): the matched stage's interval / shard number, TTL = group TTL + the TTLs of all
+    stages up to and including the matched one; retention only on the terminal stage; staged nodes do
+    not rotate; unlabeled nodes and unstaged groups run the group defaults"""
+    tu, tn, su, sn, shards, node = f[2], int(f[3]), f[4], int(f[5]), int(f[6]), int(f[7])
+    stages = [tuple(int(x) for x in st.split(":")) for st in f[8:]]
+    if node == -1 or not stages:
+        return "%s%d,%s%d,%d,0,0" % (tu, tn, su, sn, shards)
+    if node == 9 or node >= len(stages):
+        return "%s%d,%s%d,%d,1,1" % (tu, tn, su, sn, shards)
+    ttl = tn + sum(st[0] for st in stages[:node + 1])
+    return "%s%d,%s%d,%d,%d,1" % (tu, ttl, su, stages[node][1], stages[node][2], 1 if node + 1 < len(stages) else 0)
+
+
+def odb_failure(line, out):
+    f = line.split()
+    if not out.startswith("db="):
+        return "OpenDB failed: " + out[:200]
+    db, rs = out[3:].split(" rs=")
+    if db != rs:
+        return ("%s supplier.OpenDB opened the database with ttl,interval,shards,noRetention,noRotation = %s but "
+                "pub.ResolveStage resolves %s" % (f[1], db, rs))
+    want = odb_spec(f)
+    if db != want:
+        return "%s supplier.OpenDB opened the database with %s, the lifecycle configuration means %s" % (f[1], db, want)
+    return None
+
+
+def odb_cases(rng, n, engines=("stream", "measure", "trace")):
+    out = []
+    for i in range(n):
+        eng = engines[i % len(engines)]
+        tu = rng.choice("DDH")
+        su = rng.choice("DDH")
+        nst = (i // len(engines)) % 4
+        stages = ["%d:%d:%d" % (rng.randint(1, 9), rng.randint(1, 5), rng.randint(1, 3)) for _ in range(nst)]
+        node = rng.choice([-1, 9] + list(range(nst)) * 3)
+        out.append("odb.%s %s %s %d %s %d %d %d %s" % (eng, eng, tu, rng.randint(1, 7), su, rng.randint(1, 3), rng.randint(1, 3),
+                                                         node, " ".join(stages)))
+    return [l.rstrip() for l in out]
+
+
 def classify(prop, line, out):
     """-> None | ("violation", msg) | ("known", id, msg)"""
+    k0 = line.split()[0]
+    if k0.startswith("wb") or k0.startswith("odb"):
+        if (prop == "C06") != k0.startswith("wb"):
+            return None
+        if out.startswith("PANIC") or out.startswith("CRASH"):
+            return ("violation", "%s crashed: %s" % (k0, out[:200]))
+        m = wb_failure(line, out) if k0.startswith("wb") else odb_failure(line, out)
+        return ("violation", m) if m else None
     if line.split()[0].startswith("wq"):
         if prop != "C06":
             return None
@@ -699,6 +800,15 @@ def branch_stats(line, out, stats):
     def c(k):
         stats[k] = stats.get(k, 0) + 1
     if line.split()[0].startswith("std"):
+        return
+    if line.split()[0].startswith("wb"):
+        ts = [int(x.split("@")[0]) for x in line.split()[4:]]
+        c("branch:wb/%s" % ("late-element" if any(ts[i] < max(ts[:i]) for i in range(1, len(ts))) else "in-order"))
+        return
+    if line.split()[0].startswith("odb"):
+        f = line.split()
+        c("branch:odb/%s" % ("no-stages" if len(f) == 8 else "unlabeled" if f[7] == "-1" else "unmatched" if f[7] == "9" else
+                             "terminal-stage" if int(f[7]) + 1 == len(f) - 8 else "inner-stage"))
         return
     if line.split()[0].startswith("wq"):
         nin = len(line.split()) - 4
